@@ -354,15 +354,24 @@ class _Timeout(Exception):
 
 @contextlib.contextmanager
 def time_limit(seconds):
+    """Watchdog for implementation calls.  The limit is on CPU time consumed by this process
+    (ITIMER_PROF), not on wall-clock time: a call that really spins (PluralityVeto's endless loop)
+    burns CPU and is cut after `seconds`, while a call that is merely starved on a loaded machine
+    is not mistaken for non-termination.  A generous wall-clock backstop (ITIMER_REAL) catches a
+    call that blocks without using CPU."""
     def handler(signum, frame):
         raise TimeoutError("watchdog")
-    old = signal.signal(signal.SIGALRM, handler)
-    signal.setitimer(signal.ITIMER_REAL, seconds)
+    old_prof = signal.signal(signal.SIGPROF, handler)
+    old_alrm = signal.signal(signal.SIGALRM, handler)
+    signal.setitimer(signal.ITIMER_PROF, seconds)
+    signal.setitimer(signal.ITIMER_REAL, max(900.0, 90.0 * seconds))
     try:
         yield
     finally:
+        signal.setitimer(signal.ITIMER_PROF, 0)
         signal.setitimer(signal.ITIMER_REAL, 0)
-        signal.signal(signal.SIGALRM, old)
+        signal.signal(signal.SIGPROF, old_prof)
+        signal.signal(signal.SIGALRM, old_alrm)
 
 
 def call_impl(fn, *a, limit=10.0, **kw):
